@@ -45,6 +45,7 @@ def swarm_params(rng):
         "chain_rate": rng.choice([0.0, 0.1, 0.2, 0.35]),
         "burst_rate": rng.choice([0.0, 0.3, 0.6, 0.9]),
         "wild_rate": rng.choice([0.0, 0.1, 0.2, 0.5]),
+        "huge_shape": rng.random() < 0.015,
     }
 
 
@@ -58,6 +59,8 @@ def _val(rng, dtype, extreme=False):
             return int(rng.choice([info.min, info.max, info.max - 1]))
         lo = 0 if dt.kind == "u" else -4
         return rng.randint(lo, 9)
+    if extreme and rng.random() < 0.3:
+        return rng.choice(["nan", "inf", "-inf", -0.0])      # specials are spelled as strings in program text
     return rng.randint(-16, 32) / 4.0
 
 
@@ -68,6 +71,14 @@ def gen_lengths(rng, P):
     if rng.random() < 0.03:
         n = 0
     maxlen = 30 if P["big_len"] else 6
+    if P.get("huge_shape"):
+        # sizes beyond 8-bit (and the printing thresholds): one very long row or very many rows
+        if rng.random() < 0.5:
+            n = rng.randint(257, 300)
+            maxlen = 3
+        else:
+            maxlen = rng.randint(257, 300)
+            n = rng.randint(1, 3)
     pattern = rng.choice(["random", "random", "random", "start", "end", "end", "middle", "consecutive",
                           "consecutive", "all"]) \
         if rng.random() < min(max(P["empty_bias"], 0.05) * 1.5, 0.7) else "none"
